@@ -223,7 +223,6 @@ func (w *World) exchangeBatch(batch *Batch, add []ID, rem []ID,
 	if len(add) == 0 && len(rem) == 0 {
 		panic("at least one component required to add or remove")
 	}
-	lock := w.lock()
 
 	relRemoved := false
 	tables := w.storage.getBatchTables(batch)
@@ -252,6 +251,9 @@ func (w *World) exchangeBatch(batch *Batch, add []ID, rem []ID,
 	if len(batchTables) > 0 {
 		w.storage.registerTargets(relations)
 	}
+	// Lock only after the request was validated by the table lookup above,
+	// so that a rejected (panicking) call does not leave the world locked.
+	lock := w.lock()
 
 	if len(rem) > 0 {
 		if w.storage.observers.HasObservers(OnRemoveComponents) {
@@ -442,7 +444,6 @@ func (w *World) setRelationsBatch(batch *Batch, relations []relationID, fn func(
 	if len(relations) == 0 {
 		panic("no relations specified")
 	}
-	lock := w.lock()
 	hasRemoveObs := w.storage.observers.HasObservers(OnRemoveRelations)
 	hasAddObs := w.storage.observers.HasObservers(OnAddRelations)
 
@@ -469,6 +470,9 @@ func (w *World) setRelationsBatch(batch *Batch, relations []relationID, fn func(
 	// Register targets before any user callback runs, as the relations slice
 	// is a re-used buffer of the caller that a callback could overwrite.
 	w.storage.registerTargets(relations)
+	// Lock only after the request was validated by the table lookup above,
+	// so that a rejected (panicking) call does not leave the world locked.
+	lock := w.lock()
 
 	if hasRemoveObs {
 		for i := range batchTables {
